@@ -43,7 +43,11 @@ import (
 	"go.opentelemetry.io/collector/component"
 	"go.opentelemetry.io/collector/component/componenttest"
 	"go.opentelemetry.io/collector/config/configcompression"
+	"go.opentelemetry.io/collector/config/configmiddleware"
 	"go.opentelemetry.io/collector/config/configopaque"
+	"go.opentelemetry.io/collector/extension"
+	"go.opentelemetry.io/collector/extension/extensionmiddleware"
+	"go.opentelemetry.io/collector/extension/extensionmiddleware/extensionmiddlewaretest"
 )
 
 // ---- codecs called directly ----------------------------------------------------------------------
@@ -253,6 +257,7 @@ type c16Case struct {
 	net     bool
 	large   bool
 	bomb    bool // valid stream whose decoded size exceeds the limit chosen with it
+	disturb bool // afterwards send another request through the same client and re-check GetBody of this one
 	poison  bool // first push a request whose body fails through the same pooled compressor
 	class   string
 
@@ -263,12 +268,17 @@ type c16Case struct {
 	wbody    []byte
 	wcl      int64 // ContentLength as the server chain receives it (-1 = none declared)
 	captured bool
+	mw       int       // number of configured server middlewares
+	views    []c16View // every handler behind the decompressor, in the order it ran
 	wireErr  bool // the server could not read the request body to its declared end
 	// what a transport-level replay would send (GetBody of the request handed to the transport)
 	tapped       bool
 	hasRewind    bool
 	rewind       []byte
 	rewindStable bool
+	outReq       *http.Request // the request that was handed to the transport
+	disturbed    bool          // another request went through the same client after this one returned
+	rewindLater  bool          // ... and GetBody of this one still yields the bytes that were sent
 	outCL        int64
 	// replay scenario: the first attempt as received by the server before it dropped the connection
 	replay     bool
@@ -292,6 +302,43 @@ type c16Case struct {
 	data     []byte
 	errc     int
 }
+
+type c16View struct {
+	tag  int // 0 = innermost handler, i = configured middleware i
+	ce   []string
+	cl   int64
+	data []byte
+	errc int
+}
+
+type c16Host struct{ ext map[component.ID]component.Component }
+
+func (h *c16Host) GetExtensions() map[component.ID]component.Component { return h.ext }
+
+type c16Middleware struct {
+	extension.Extension
+	extensionmiddleware.GetHTTPHandlerFunc
+}
+
+// a body put back after a handler looked at it: the same bytes, then the same terminal error
+type c16Restored struct {
+	data []byte
+	err  error
+	orig io.ReadCloser
+}
+
+func (b *c16Restored) Read(p []byte) (int, error) {
+	if len(b.data) == 0 {
+		if b.err != nil {
+			return 0, b.err
+		}
+		return 0, io.EOF
+	}
+	n := copy(p, b.data)
+	b.data = b.data[n:]
+	return n, nil
+}
+func (b *c16Restored) Close() error { return b.orig.Close() }
 
 type c16Capture struct {
 	next http.Handler
@@ -366,6 +413,7 @@ func (tp *c16Tap) RoundTrip(req *http.Request) (*http.Response, error) {
 	cs.tapped = true
 	cs.hasRewind, cs.rewind = c16GetBody(req)
 	cs.outCL = req.ContentLength
+	cs.outReq = req
 	resp, err := tp.next.RoundTrip(req)
 	has2, again := c16GetBody(req)
 	cs.rewindStable = has2 == cs.hasRewind && bytes.Equal(again, cs.rewind)
@@ -479,9 +527,29 @@ func c16Run(t *testing.T, cs *c16Case) {
 		cs.cl = r.ContentLength
 		cs.data = data
 		cs.errc = c16ErrClass(err)
+		cs.views = append(cs.views, c16View{0, cs.hce, cs.cl, data, cs.errc})
 		w.WriteHeader(http.StatusOK)
 	})
-	srv, err := sc.ToServer(ctx, componenttest.NewNopHost(), c16Tel, inner, opts...)
+	// ServerConfig.Middlewares: handlers the configuration places "behind" the server middleware; each looks
+	// at the request (header, declared length, the whole body) and leaves it as it found it
+	host := &c16Host{ext: map[component.ID]component.Component{}}
+	for i := 1; i <= cs.mw; i++ {
+		i := i
+		id := component.MustNewID(fmt.Sprintf("c16mw%d", i))
+		host.ext[id] = &c16Middleware{
+			Extension: extensionmiddlewaretest.NewNop(),
+			GetHTTPHandlerFunc: func(next http.Handler) (http.Handler, error) {
+				return http.HandlerFunc(func(w http.ResponseWriter, r *http.Request) {
+					data, err := io.ReadAll(r.Body)
+					cs.views = append(cs.views, c16View{i, append([]string(nil), r.Header.Values("Content-Encoding")...), r.ContentLength, data, c16ErrClass(err)})
+					r.Body = &c16Restored{data: data, err: err, orig: r.Body}
+					next.ServeHTTP(w, r)
+				}), nil
+			},
+		}
+		sc.Middlewares = append(sc.Middlewares, configmiddleware.Config{ID: id})
+	}
+	srv, err := sc.ToServer(ctx, host, c16Tel, inner, opts...)
 	if err != nil {
 		t.Fatalf("ToServer: %v", err)
 	}
@@ -558,6 +626,7 @@ walk:
 			cs.poisonOdd = "a request whose body fails while being compressed reached the server"
 		}
 		cs.ran = false
+		cs.views = nil
 		chain.cs = keep
 		tap.cs = keep
 	}
@@ -668,6 +737,30 @@ walk:
 	}
 	_, _ = io.Copy(io.Discard, resp.Body)
 	_ = resp.Body.Close()
+	if cs.disturb && cs.hasRewind && cs.outReq != nil {
+		// net/http may rewind the body AFTER RoundTrip returned (a 307/308 redirect, a retry by the caller):
+		// the request handed to the transport must stay what it was while other requests go through the
+		// same client.  Send another, different, larger request, then ask the first one for its body again.
+		real, realTap := chain.cs, tap.cs
+		chain.cs, tap.cs = &c16Case{}, &c16Case{}
+		chain.mu.Lock()
+		chain.warm = true
+		chain.mu.Unlock()
+		other := c16Bytes(vNewRand(uint64(len(cs.body))+77), len(cs.body)+64, 0)
+		if reqD, errD := http.NewRequestWithContext(ctx, http.MethodPost, url, bytes.NewReader(other)); errD == nil {
+			if respD, errD := client.Do(reqD); errD == nil {
+				_, _ = io.Copy(io.Discard, respD.Body)
+				_ = respD.Body.Close()
+			}
+		}
+		chain.mu.Lock()
+		chain.warm = false
+		chain.mu.Unlock()
+		chain.cs, tap.cs = real, realTap
+		cs.disturbed = true
+		_, again := c16GetBody(cs.outReq)
+		cs.rewindLater = bytes.Equal(again, cs.rewind)
+	}
 	client.CloseIdleConnections()
 	cs.status = resp.StatusCode
 	switch {
@@ -780,9 +873,33 @@ func c16Oracle(out *vOut, cs *c16Case, term string) {
 	}
 	// what GetBody of the request handed to the transport yields is what a replay sends: it must be the
 	// bytes that were sent, however often it is asked
+	if cs.disturbed && !cs.rewindLater {
+		fail("rewind-differs", "after RoundTrip returned and another request went through the same client, GetBody of the sent request no longer yields the %d bytes that were sent: a redirect or retry would send something else", len(cs.wbody))
+	}
 	if cs.tapped && cs.captured && cs.hasRewind && (!bytes.Equal(cs.rewind, cs.wbody) || !cs.rewindStable) {
 		fail("rewind-differs", "GetBody of the outgoing request yields %d bytes (stable=%v) but %d bytes were sent: a transport-level replay sends a different body",
 			len(cs.rewind), cs.rewindStable, len(cs.wbody))
+	}
+	// every handler behind the server middleware (the configured middlewares, then the innermost handler)
+	// is given the same request, decoded and limited, in the configured order; none runs when the request
+	// is rejected
+	if cs.kind == 0 {
+		ok := len(cs.views) == cs.mw+1
+		for i, v := range cs.views {
+			want := i + 1
+			if i == len(cs.views)-1 {
+				want = 0
+			}
+			if !ok || v.tag != want || !bytes.Equal(v.data, cs.data) || v.errc != cs.errc || v.cl != cs.cl ||
+				strings.Join(v.ce, "\x00") != strings.Join(cs.hce, "\x00") {
+				ok = false
+			}
+		}
+		if !ok {
+			fail("middleware-view", "%d configured middleware(s): the handlers behind the decompressor ran as %s", cs.mw, cs.viewsSummary())
+		}
+	} else if len(cs.views) != 0 {
+		fail("middleware-ran-for-rejected-request", "the request was not handled (kind %d) but handlers ran: %s", cs.kind, cs.viewsSummary())
 	}
 	compressing := c16CodecOfName(cs.typ) >= 0
 	enc := c16First(cs.wce)
@@ -943,11 +1060,29 @@ func (cs *c16Case) term() string {
 	if cs.hdrSet {
 		hdr = "(Some " + vStr(cs.hdrVal) + ")"
 	}
-	return fmt.Sprintf("EC %s %s %s %s %s %s %s %s %s %s %s %s %s %s %s %s %s %s %s %s %s %s %s %s %s %s",
+	return fmt.Sprintf("EC %s %s %s %s %s %s %s %s %s %s %s %s %s %s %s %s %s %s %s %s %s %s %s %s %s %s %s %s",
 		vStr(cs.typ), vZ(int64(cs.level)), hdr, c16Strs(cs.preset), c16Strs(cs.rawCE), body, vBool(cs.chunked), vBool(cs.rerr), vBool(cs.cerr),
-		vZ(cs.max), algs, custom, vList(et), c16StreamTerm(decin), vList(dt),
+		vZ(cs.max), algs, custom, vNat(cs.mw), vList(et), c16StreamTerm(decin), vList(dt),
 		vN(uint64(cs.cstate)), c16Strs(cs.wce), vBytes(cs.wbody), vZ(cs.wclObs()), cs.rewindObs(),
-		vN(uint64(cs.kind)), vZ(int64(cs.statusObs())), c16Strs(cs.hceObs()), vZ(cs.clObs()), vBytes(cs.dataObs()), vN(uint64(cs.errcObs())))
+		vN(uint64(cs.kind)), vZ(int64(cs.statusObs())), c16Strs(cs.hceObs()), vZ(cs.clObs()), vBytes(cs.dataObs()), vN(uint64(cs.errcObs())), cs.viewsTerm())
+}
+
+func (cs *c16Case) viewsSummary() string {
+	var it []string
+	for _, v := range cs.views {
+		it = append(it, fmt.Sprintf("[tag %d ce=%q cl=%d |data|=%d err=%d]", v.tag, v.ce, v.cl, len(v.data), v.errc))
+	}
+	return strings.Join(it, " ")
+}
+
+func (cs *c16Case) viewsTerm() string {
+	var it []string
+	if cs.clientOK {
+		for _, v := range cs.views {
+			it = append(it, fmt.Sprintf("(%s, (%s, %s, %s))", vN(uint64(v.tag)), c16Strs(v.ce), vZ(v.cl), c16StreamTerm(c16Stream{v.data, v.errc})))
+		}
+	}
+	return vList(it)
 }
 
 // canonical observables: nothing about the handler unless it ran
@@ -1356,6 +1491,9 @@ func c16Gen(r *vRand) *c16Case {
 
 // client `headers:` configuration and non-canonical header keys on the caller's request
 func c16HeadersDim(r *vRand, cs *c16Case) {
+	if !cs.large {
+		cs.mw = []int{0, 0, 0, 1, 1, 2}[r.Intn(6)] // configured server middlewares
+	}
 	switch r.Pick(78, 14, 8) {
 	case 1:
 		cs.hdrSet = true
@@ -1393,6 +1531,7 @@ func c16Framing(r *vRand, cs *c16Case, pChunked int) {
 		}
 		cs.replay = cs.net
 	}
+	cs.disturb = !cs.large && r.Pick(60, 40) == 1
 	cs.method = []string{http.MethodPost, http.MethodPost, http.MethodPut, http.MethodPatch, http.MethodDelete}[r.Intn(5)]
 }
 
@@ -1728,6 +1867,17 @@ func TestVerifC16(t *testing.T) {
 		if cs.chunked {
 			out.Stat("framing.client-body-without-length", 1)
 		}
+		if cs.mw > 0 && cs.clientOK {
+			out.Stat(fmt.Sprintf("middlewares.%d", cs.mw), 1)
+			switch {
+			case cs.kind != 0:
+				out.Stat("middlewares.request-rejected", 1)
+			case len(cs.hce) == 0 && cs.cl == -1:
+				out.Stat("middlewares.see-decoded-body", 1)
+			default:
+				out.Stat("middlewares.see-identity-body", 1)
+			}
+		}
 		if cs.hdrSet {
 			out.Stat("headers.content-encoding-configured", 1)
 			if c16CodecOfName(cs.typ) >= 0 && c16First(cs.preset) == "" {
@@ -1755,6 +1905,9 @@ func TestVerifC16(t *testing.T) {
 			} else if cs.clientOK {
 				out.Stat("replay.connection-not-reused-no-fault", 1)
 			}
+		}
+		if cs.disturbed {
+			out.Stat("replay.rewind-rechecked-after-another-request", 1)
 		}
 		if cs.tapped {
 			if cs.hasRewind {
